@@ -172,7 +172,7 @@ type TFact struct {
 }
 
 type absint struct {
-	ioOK map[*ssa.Function]int // module implementations of Read/ReadFrom/Write…: 1 keeps n ≤ len(buf), 2 does not
+	ioOK          map[*ssa.Function]int // module implementations of Read/ReadFrom/Write…: 1 keeps n ≤ len(buf), 2 does not
 	diffBusy      bool
 	nnBusy        map[*ssa.Function]bool
 	linBusy       bool
@@ -570,6 +570,18 @@ func (a *absint) eval1(v ssa.Value) ival {
 						r.hi = e.hi
 					}
 					if e.lo < r.lo {
+						r.lo = e.lo
+					}
+				}
+				return r
+			case "max":
+				r := a.eval(x.Call.Args[0])
+				for _, o := range x.Call.Args[1:] {
+					e := a.eval(o)
+					if e.hi > r.hi {
+						r.hi = e.hi
+					}
+					if e.lo > r.lo {
 						r.lo = e.lo
 					}
 				}
